@@ -221,6 +221,42 @@ func H_jsStruct(t int, es6 bool) {
 			}
 		}
 		verifAssert(depth == 0 && par == 0 && brk == 0, "unbalanced brackets in generated JavaScript")
+		// a '.' that follows an identifier character, ')' or ']' is a property access and must be
+		// followed by an identifier start (outside string literals and comments)
+		for i := 0; i+1 < len(out); i++ {
+			switch out[i] {
+			case '\'', '"':
+				q := out[i]
+				for i++; i < len(out) && out[i] != q; i++ {
+					if out[i] == '\\' {
+						i++
+					}
+				}
+			case '/':
+				if out[i+1] == '/' {
+					for i < len(out) && out[i] != '\n' {
+						i++
+					}
+				}
+			case '.':
+				if i > 0 {
+					p := out[i-1]
+					prevIdent := p == ')' || p == ']'
+					// the token before the dot: an identifier (may end in digits) or a number literal
+					j := i - 1
+					for j >= 0 && (out[j] == '_' || out[j] == '$' || out[j] >= 'a' && out[j] <= 'z' || out[j] >= 'A' && out[j] <= 'Z' || out[j] >= '0' && out[j] <= '9') {
+						j--
+					}
+					if j+1 < i {
+						f := out[j+1]
+						prevIdent = f == '_' || f == '$' || f >= 'a' && f <= 'z' || f >= 'A' && f <= 'Z'
+					}
+					n := out[i+1]
+					nextStart := n == '_' || n == '$' || n >= 'a' && n <= 'z' || n >= 'A' && n <= 'Z'
+					verifAssert(!prevIdent || nextStart, "property access with a name that is not an identifier in generated JavaScript")
+				}
+			}
+		}
 		// every "var NAME" declares an identifier
 		for i := 0; i+4 < len(out); i++ {
 			if out[i:i+4] == "var " && (i == 0 || out[i-1] == ' ' || out[i-1] == '\n' || out[i-1] == '(') {
